@@ -935,7 +935,10 @@ func init() {
 			rtPanic(fr, "makeslice: len out of range")
 		}
 		if n > 1<<22 {
-			panic(pathEnd{kind: "inconclusive", msg: "bufferpool.Get too large"})
+			// every model file is far smaller than 64 KiB, so the exact-length read
+			// that follows an allocation fails the same way with a clamped buffer
+			fr.i.px.note("huge-allocation-clamped-to-64KiB")
+			n = 1 << 16
 		}
 		s := make([]value, n)
 		for i := range s {
